@@ -179,8 +179,9 @@ def ab (c impl : List String) : Option Verdict := do
 /-- `isRoute family fam val dlen oif hasPref pref` -/
 def pRouteMsg : P RouteMsg := do
   let a ← P.bool; let f ← P.nat; let ip ← P.ip
-  let dl ← P.nat; let oif ← P.nat; let hp ← P.bool; let pv ← P.nat
-  pure { isRoute := a, family := f, dst := ip, dlen := dl, oif := oif, pref := if hp then some pv else none }
+  let dl ← P.nat; let oif ← P.nat; let hp ← P.bool; let pv ← P.nat; let ab ← P.bool
+  pure { isRoute := a, family := f, dst := ip, dlen := dl, oif := oif, pref := if hp then some pv else none,
+         dstAbsent := ab }
 
 def routeToks (r : SysRoute) : String := s!" {prefixToks r.pfx} {r.index} {r.preference}"
 
@@ -191,16 +192,18 @@ def pSysRoute : P SysRoute := do
 /-- `rb failed n routemsg* | req (ok n (prefix index pref)* | nil e | panic)` -/
 def rb (c impl : List String) : Option Verdict := do
   let (failed, msgs) ← P.run (do let f ← P.bool; let ms ← P.list pRouteMsg; pure (f, ms)) c
-  let m := routesByIndex msgs failed
-  let nt := !failed && decide (msgs.length ≥ 2) && msgs.all Spec.C13Addresser.wellFormedRoute
+  let m := routesByIndexSrc msgs failed
+  let nt := !failed && decide (msgs.length ≥ 2) && (msgs.map (normRoute true)).all Spec.C13Addresser.wellFormedRoute
   let some (req, r) := P.run (do let q ← P.bool; let r ← pRes pSysRoute; pure (q, r)) impl
     | pure { model := "1 " ++ resToksWith routeToks m, oracle := false, nontrivial := nt,
              note := "routesByIndex returned neither (list, nil), (nil, err of the request) nor panicked" }
-  let ok := req && Spec.C13Addresser.holdsRoutes msgs failed r
+  let ok := req && Spec.C13Addresser.holdsRoutesDoc msgs failed r
   pure { model := "1 " ++ resToksWith routeToks m, oracle := ok, nontrivial := nt,
          note := if ok then "" else
-           if !req then "routesByIndex did not send the documented RTM_GETROUTE dump request"
-           else "routesByIndex: one system.Route per route message in dump order with Prefix = (Dst, DstLength), the out-interface index and the preference (Medium when absent); (nil, err) for a failing request or an empty dump; panic on a broken invariant" }
+           if Spec.C13Addresser.defaultRouteClass msgs failed r then
+             "class=default-route-without-dst the dump contains a default route (destination length 0, no RTA_DST attribute, as the kernel sends it) and routesByIndex panicked on it instead of returning ::/0"
+           else if !req then "routesByIndex did not send the documented RTM_GETROUTE dump request"
+           else "routesByIndex: one system.Route per route message in dump order with Prefix = (Dst, DstLength), the out-interface index and the preference (Medium when absent), Dst = :: for a default route sent without RTA_DST; (nil, err) for a failing request or an empty dump; panic on a broken invariant" }
 
 end C13
 
